@@ -89,7 +89,7 @@ def fault_cases(ck, count):
 
 
 def run(ck):
-    ck.prove(["Properties_C04", "SrcRun4", "RefineConcSim"], THEOREMS)
+    ck.prove(["Properties_C04", "SrcRun4", "RefineConcSimEx"], THEOREMS)
     exe = shim_driver(ck)
     big = ck.tier == "thorough"
     r = ck.rng
